@@ -96,15 +96,35 @@ def Chunked.readChunkSize (S : Src σ) (c : Chunked σ) : RR Nat × Chunked σ :
   | (.blocked, r') => (.blocked, { c with inner := r' })
   | (.panic, r') => (.panic, { c with inner := r' })
 
+/-- src/parsing/chunked_reader.rs `skip_trailers`: `for _ in 0..=MAX_TRAILER_LINES { read_line(..)?;
+    if line.is_empty() { return Ok(true) } } Ok(false)`; `k` = iterations left. -/
+def skipTrailersLoop (S : Src σ) : Nat → σ → RR Bool × σ
+  | 0, r => (.ok false, r)
+  | k+1, r =>
+    match readLine S r Consts.trailerLineLimit with
+    | (.ok line, r') => if line = [] then (.ok true, r') else skipTrailersLoop S k r'
+    | (.err e, r') => (.err e, r')
+    | (.blocked, r') => (.blocked, r')
+    | (.panic, r') => (.panic, r')
+
+def skipTrailers (S : Src σ) (r : σ) : RR Bool × σ :=
+  skipTrailersLoop S (Consts.maxTrailerLines + 1) r
+
+/-- What ends a chunk once its data is complete: the trailer section and the empty line after the
+    last chunk (`reached_eof`), a line ending after any other chunk. -/
+def chunkEnd (S : Src σ) (last : Bool) (r : σ) : RR Bool × σ :=
+  if last then skipTrailers S r else readLineEnding S r
+
 /-- Second half of the refill: `buffer.resize(min(remaining, MAX_BUFFER_LEN))`, `read_exact`,
-    `remaining -= buffer.len()`, and the line ending once the chunk is complete. -/
+    `remaining -= buffer.len()`, and the line ending (after the last chunk: the trailer section and
+    the empty line) once the chunk is complete. -/
 def Chunked.refillData (S : Src σ) (c1 : Chunked σ) (maxBuf : Nat) : RR Unit × Chunked σ :=
   match S.readExact c1.inner (min c1.remaining maxBuf) with
   | (.ok bs, r') =>
     -- `self.remaining -= self.buffer.len()` : usize subtraction
     if c1.remaining < bs.length then (.panic, { c1 with inner := r' }) else
     if c1.remaining - bs.length = 0 then
-      (match readLineEnding S r' with
+      (match chunkEnd S c1.reachedEof r' with
        | (.ok true, r'') =>
          (.ok (), { c1 with inner := r'', buffer := bs, consumed := 0, remaining := 0 })
        | (.ok false, r'') =>
